@@ -51,9 +51,13 @@ class C08(Prop):
                     + [f"act:{a}" for a in ("SUCCESS", "BLOCKED", "FAILURE", "SKIPPED", "ERROR")]
                     + ["set:thr", "set:tmo"])
     assumptions = [
-        "agents return an ActionProtein whose action_type is a string, or raise; they do not call back into the loop",
+        "agents return a well-formed ActionProtein (str action_type, str()-able payload) or raise an Exception; they do "
+        "not call back into the loop (a malformed return value makes run() raise outside its handler: no failure is "
+        "recorded for it; not modelled)",
+        "'executor failure' is a failure outcome unless the assessor votes BLOCK (intentional block) or, under OR logic, "
+        "the assessor PERMITs (the request then passes and is a success): c08_executor_failure_outcome",
         "the clock is the module-level `datetime` of operon_ai.topology.loops (substituted by a virtual clock); "
-        "time never runs backwards",
+        "time never runs backwards (the code reads naive local datetime.now(): a DST change shifts the wall-clock reading)",
         "single caller (no concurrent run() calls); on_block / on_permit callbacks are None",
         "energy is spent only by agent invocations (stub agents consume a fixed cost from the shared ATP_Store)",
     ]
